@@ -25,8 +25,10 @@ func init() {
 			}
 			ruleC11M1(r, pk)
 			ruleC11M2(r, pk)
+			ruleC11M3(r, pk)
 			ruleC11M5(r, pk)
 			ruleC11M6(r)
+			ruleNameAgreement(r, "M8", "/encoding/convert")
 			ruleC11M7(r)
 		},
 	})
@@ -346,4 +348,76 @@ func rulePoolReset(r *Run, id string) {
 		})
 	}
 	r.Stat("pool_puts", n)
+}
+
+// ruleC11M3: field pairing is an inverse relation between the two converter directions (and units agree).
+func ruleC11M3(r *Run, pk *packages.Package) {
+	r.Begin("M3", "field pairing inverse and unit agreement: whenever a converter literal computes field B.g from field A.f (A, B protocol structs on opposite sides), and the opposite direction computes A.f from fields of B at all, it computes it from B.g; durations and times are scaled with the same unit in both directions", 150)
+	p := r.P
+	isProto := func(n *types.Named) bool {
+		if n.Obj().Pkg() == nil {
+			return false
+		}
+		pp := n.Obj().Pkg().Path()
+		return pp == modPath+"/message" || strings.HasPrefix(pp, "github.com/aptpod/iscp-proto/")
+	}
+	side := func(n *types.Named) string {
+		if n.Obj().Pkg().Path() == modPath+"/message" {
+			return "m"
+		}
+		return "p"
+	}
+	pairs := collectFieldPairs(pk, isProto)
+	type key struct{ t, f string }
+	// sources of each destination field, restricted to pairs crossing sides
+	srcs := map[key]map[key]fieldPair{}
+	for _, fp := range pairs {
+		if side(fp.Src) == side(fp.Dst) {
+			continue
+		}
+		d := key{tname(fp.Dst), fp.DstField}
+		if srcs[d] == nil {
+			srcs[d] = map[key]fieldPair{}
+		}
+		srcs[d][key{tname(fp.Src), fp.SrcField}] = fp
+	}
+	var dkeys []key
+	for d := range srcs {
+		dkeys = append(dkeys, d)
+	}
+	sort.Slice(dkeys, func(i, j int) bool { return dkeys[i].t+dkeys[i].f < dkeys[j].t+dkeys[j].f })
+	n := 0
+	for _, d := range dkeys {
+		for s, fp := range srcs[d] {
+			back := srcs[s]
+			// restrict to sources on d's struct type
+			var backOnD []key
+			for b := range back {
+				if b.t == d.t {
+					backOnD = append(backOnD, b)
+				}
+			}
+			if len(backOnD) == 0 {
+				continue // the opposite direction does not compute s from fields of d's struct (method, helper, constant)
+			}
+			n++
+			_, ok := back[d]
+			names := []string{}
+			for _, b := range backOnD {
+				names = append(names, b.f)
+			}
+			sort.Strings(names)
+			r.Check(fmt.Sprintf("%s.%s <- %s.%s", d.t, d.f, s.t, s.f), ok, p.pos(fp.Pos), fp.Fn,
+				fmt.Sprintf("%s computes %s.%s from %s.%s; the opposite direction computes %s.%s from %s.%v", fp.Fn, d.t, d.f, s.t, s.f, s.t, s.f, d.t, names))
+			if ok {
+				bu := back[d].Unit
+				if fp.Unit != "" || bu != "" {
+					r.Check(fmt.Sprintf("unit %s.%s <-> %s.%s", d.t, d.f, s.t, s.f), fp.Unit == bu, p.pos(fp.Pos), fp.Fn,
+						fmt.Sprintf("time unit applied: %q in %s, %q in %s", fp.Unit, fp.Fn, bu, back[d].Fn))
+				}
+			}
+		}
+	}
+	r.Stat("field_pairs", len(pairs))
+	r.Stat("cross_side_pairs_with_inverse_candidate", n)
 }
